@@ -53,10 +53,36 @@ def crash_key(row, plan):
     return "crash:%s:%s:%s" % (plan, loc, msg)
 
 
+def _binary_matches(ctx, exe, feats):
+    """The harness target directory is shared by all checks: a concurrent build of another feature
+    set can replace target/debug/gcdrive between `cargo build` and vf's copy. Ask the binary itself
+    (layout mode reports the compiled-in features; placement variants only exist with `placements`)."""
+    out = os.path.join(ctx.work, "probe_%d.ndjson" % os.getpid())
+    variant = "4" if "placements" in feats else "0"
+    rc, o = ctx.run([exe, "--plan", "NoGC", "--variant", variant, "--heap", "64", "--mode", "layout",
+                     "--out", out], timeout=120)
+    if rc != 0 or not os.path.exists(out):
+        return False
+    want = {f for f in feats if f != "placements"}
+    for line in open(out):
+        if line.startswith('{"ev":"Layout"'):
+            have = set(filter(None, json.loads(line).get("features", "").split("+")))
+            return want == have
+    return False
+
+
 def build_all(ctx, runs):
     exes = {}
     for fs, rel in sorted({(r.feats, r.release) for r in runs}):
-        exes[(fs, rel)] = ctx.build("gcdrive", features=list(fs), release=rel)
+        for attempt in range(4):
+            exe = ctx.build("gcdrive", features=list(fs), release=rel)
+            if _binary_matches(ctx, exe, fs):
+                break
+            vf.log("binary %s does not carry features %s (concurrent build in the shared target "
+                   "directory?), rebuilding" % (exe, list(fs)))
+        else:
+            raise vf.ToolError("could not obtain a gcdrive binary with features %s" % list(fs))
+        exes[(fs, rel)] = exe
     return exes
 
 
